@@ -244,8 +244,17 @@ type bag map[string]int
 
 func (b bag) add(k string) { b[k]++ }
 
+// droppedBorderline counts, over all calls of between, answers that the scan has and the index
+// legitimately lacks (borderline leaves); read and reset by the clauses for labelling only.
+var droppedBorderline int
+
 // between checks must <= got <= all as multisets; returns a description of the first discrepancy.
 func between(must, got, all bag) error {
+	for k, n := range all {
+		if got[k] < n {
+			droppedBorderline += n - got[k]
+		}
+	}
 	keys := map[string]bool{}
 	for k := range must {
 		keys[k] = true
